@@ -29,6 +29,9 @@ def run(patch, props, keep=False, tier="quick"):
         r = subprocess.run([os.path.join(VERIF, "check"), p, "--tier", tier], env=env, capture_output=True, text=True, cwd=VERIF)
         rules = sorted(set(re.findall(r"rule=(\S+) key=(\S+)", r.stdout)))
         out[p] = {"rc": r.returncode, "rules": [f"{a}:{b}" for a, b in rules][:12]}
+        if r.returncode != 0 and "VIOLATION property=" not in r.stdout:
+            out[p]["rc"] = 3
+            out[p]["note"] = "check crashed: " + (r.stderr or r.stdout)[-300:]
         if "FACT-EXTRACTION" in r.stdout:
             out[p]["note"] = "does not build"
     if not keep:
